@@ -96,7 +96,8 @@ PROPS["C17"] = dict(
     kinds={1: ("analytic-mismatch", "parser.Parse + query.Select returned rows (row ++ analytic value, as a multiset) that differ from Model.Analytic.analyze", True),
            2: ("last-value-frame", "LAST_VALUE with an explicit ROWS clause is not the last value of the row's frame", True),
            3: ("rows-or-columns-changed", "the other columns or the number of rows changed", True),
-           4: ("oracle-wf", "string oracle inconsistent with the modelled parsers", True)},
+           4: ("oracle-wf", "string oracle inconsistent with the modelled parsers", True),
+           5: ("outer-order-by", "the rows of a query with an analytic function are not sorted by the query's own ORDER BY", True)},
     expected=lambda kind, cid: "Eval vm_compute in (map expected_analytic (filter (fun c => N.eqb (aid c) %d) acases))." % cid,
     trusted=COMMON_TRUST + [FLOAT_TRUST, ORACLE_TRUST, "sort.Sort (the ORDER BY of the clause): order-sensitive functions are generated with a unique last key, the rank family with ties"],
     assumptions=_QUERY_ASSUME + ["LISTAGG / JSON_AGG / STDEV / VAR / MEDIAN / user aggregates with OVER are not modelled", "--strict-equal is generated only where no ORDER BY is involved (see C07)"],
